@@ -44,7 +44,7 @@ def run(ctx):
         # every set of up to 2 (thorough: 3) of the 31 faults, on both base graphs
         ctx.tlc("MC_Commands", files=mc("MC_Commands", 2 if quick else 3), on_case=on_case, timeout=3000)
         p = ctx.vh(["commands", "seeded", str(100 if quick else 3000)])
-        for line in p.stdout.decode().splitlines():
+        for line in p.stdout.decode().split("\n"):
             if line.strip():
                 fh.write(line + "\n")
                 n[0] += 1
